@@ -1,3 +1,3 @@
 SPECIFICATION Spec
-INVARIANTS EmitCase EachOptionItsOwnField SyntaxesAgree CacheAsymmetry DefaultsWhenUnset
+INVARIANTS EmitCase ExplicitZeroHonoured AcceptanceAgrees EachOptionItsOwnField SyntaxesAgree CacheAsymmetry DefaultsWhenUnset
 CHECK_DEADLOCK FALSE
